@@ -25,27 +25,31 @@ type Query implements Node {
   many(fs: [Filter!]): Int
   nums(xs: [Int!] = [1, 2], ys: [[Int!]!]! = [[1]], z: Float = 2): Int
   trio: Trio
+  planned: Planned
   big(b: Big = B2, bs: [Big!]): Big
 }
 type Mutation { set(in: Filter!): Pet }
 type Subscription { tick(every: Int): Int tock: Int pet: Pet }
 interface Node { id: ID! }
+# an interface nothing implements (yet)
+interface Planned { id: ID! eta: Int }
 interface Named implements Node { id: ID! name(short: Boolean): String }
 type Pet implements Named & Node { id: ID! name(short: Boolean): String kind: Kind owner: Person nick: String tags: [String!] }
 type Person implements Node & Named { id: ID! name(short: Boolean): String pets(first: Int = 1): [Pet] age: Int nick: Int tags: [String] friend: Person }
 # robots
 #
 # are things, not pets
-type Robot { id: ID! model: String }
+type Robot @entity { id: ID! model: String }
 # a long enumeration
 enum Big { B1 B2 B3 B4 B5 B6 B7 B8 B9 B10 }
 union Result = Pet | Person
 union Thing = Pet | Robot
 union Trio = Pet | Person | Robot
-enum Kind { DOG CAT }
-input Filter { name: String = "n" kinds: [Kind!] = [DOG] sub: Filter min: Int! = 0 req: Boolean! }
+enum Kind @entity { DOG CAT }
+input Filter @entity { name: String = "n" kinds: [Kind!] = [DOG] sub: Filter min: Int! = 0 req: Boolean! }
 input OneIn @oneOf { a: Int b: String }
-scalar Date
+scalar Date @entity
+directive @entity on OBJECT | SCALAR | INTERFACE | ENUM | INPUT_OBJECT | UNION
 directive @tag(name: String!, n: Int) repeatable on FIELD | QUERY | MUTATION | SUBSCRIPTION | FRAGMENT_SPREAD | INLINE_FRAGMENT | FRAGMENT_DEFINITION | VARIABLE_DEFINITION
 directive @once(v: Int = 1, w: Float = 2) on FIELD | QUERY | FRAGMENT_DEFINITION
 `,
@@ -222,6 +226,8 @@ var overlapArgs = []string{
 	// arguments written in non-alphabetical order, each with an error of its own (errors come in source order)
 	// object literals with as many entries but other keys (also unknown ones), nested
 	`s: search(f: {name: "a"}) { __typename }`, `s: search(f: {zz: true}) { __typename }`, `s: search(f: {req: true, sub: {name: "a"}}) { __typename }`, `s: search(f: {req: true, sub: {min: 1}}) { __typename }`,
+	// two different argument names each given twice
+	`s: search(q: "x", q: "y", n: 1, n: 2) { __typename }`, `s: search(n: 1, q: "x", n: 2, q: "y", ks: [DOG], ks: [CAT]) { __typename }`,
 	`s: search(q: 1, n: "x") { __typename }`, `s: search(zz: 1, aa: 2, q: "x") { __typename }`,
 }
 
@@ -281,9 +287,9 @@ var ValidProfiles = []Profile{
 		{``, `r3: req(a: $a)`, `k: pet(kind: $k) { id }`, `ff: search(f: $f) { __typename }`, `...VF`, `o: one(arg: {a: $a})`, `o2: one(arg: {b: $a})`},
 	}, Optional: []string{"VF", "VG", "VH", "VI", "VJ", "VK"}},
 	{Name: "fragments", Template: `query Q { §0 } §1 §2`, Holes: [][]string{
-		{`...F`, `id`, `...G`, `...Nope`, `node(id: 1) { ...F }`, `pet { ...F }`, `search { ...F }`, `named { ... on Person { id } }`, `pet { ... on Person { id } }`, `node(id: 1) { ... on Kind { x } }`, `...A`, `pet { ...F ...F }`, `... on Query { ...F }`, `... { ...F }`, `... on Pet { id }`, `person { ...F }`, `search { ...H }`, `...F ...G`, `named { ...I }`, `pet { ...I }`, `node(id: 1) { ...J }`},
+		{`...F`, `id`, `...G`, `...Nope`, `node(id: 1) { ...F }`, `pet { ...F }`, `search { ...F }`, `named { ... on Person { id } }`, `pet { ... on Person { id } }`, `node(id: 1) { ... on Kind { x } }`, `...A`, `pet { ...F ...F }`, `... on Query { ...F }`, `... { ...F }`, `... on Pet { id }`, `person { ...F }`, `search { ...H }`, `...F ...G`, `named { ...I }`, `pet { ...I }`, `node(id: 1) { ...J }`, `planned { ...K eta }`, `planned { ... on Pet { id } nope }`, `pet { ...F } person { ...F }`, `person { ...F } pet { ...F }`},
 		{`fragment F on Query { id }`, `fragment F on Pet { id }`, `fragment F on Nope { id }`, `fragment F on Kind { x }`, `fragment F on Query { ...F }`, `fragment F on Query { id } fragment F on Query { id }`, ``, `fragment F on Filter { name }`, `fragment F on Query { pet { ...F } }`, `fragment F on Node { id }`, `fragment F on Result { __typename }`, `fragment F on Query { id ...G }`, `fragment F on Query { id ...Nope }`, `fragment F on name { id }`, `fragment F on Pat { id }`, `fragment F on Query { pet { id ...Nope2 } }`},
-		{``, `fragment G on Query { ...F }`, `fragment A on Query { ...B } fragment B on Query { ...A }`, `fragment G on Query { id }`, `fragment A on Query { ...B } fragment B on Query { ...C } fragment C on Query { pet { id } ...A }`, `fragment H on Thing { __typename }`, `fragment G on Query { ...G }`, `fragment I on Person { id }`, `fragment J on Robot { id }`, `fragment I on Named { ... on Pet { id } }`, `fragment G on Query { b: id ...Missing }`, `fragment G on Query { pet { ...Missing } }`},
+		{``, `fragment G on Query { ...F }`, `fragment A on Query { ...B } fragment B on Query { ...A }`, `fragment G on Query { id }`, `fragment A on Query { ...B } fragment B on Query { ...C } fragment C on Query { pet { id } ...A }`, `fragment H on Thing { __typename }`, `fragment G on Query { ...G }`, `fragment I on Person { id }`, `fragment J on Robot { id }`, `fragment I on Named { ... on Pet { id } }`, `fragment G on Query { b: id ...Missing }`, `fragment G on Query { pet { ...Missing } }`, `fragment K on Planned { id }`, `fragment K on Node { id }`},
 	}},
 	{Name: "directives", Template: `query Q($c: Boolean = true §3) §0 { id §1 ...DF §2 ... §1 { pet { id } } ... on Query §2 { x: id } } fragment DF on Query §0 { y: id }`, Holes: [][]string{
 		append([]string{``}, dirMenu[4:]...), dirMenu, dirMenu, {``, `@tag(name: "v")`, `@skip(if: true)`, `@once`, `@tag(name: "v") @tag(name: "w")`},
